@@ -53,6 +53,7 @@ func Harness_C16_conflated() {
 	pre := [2]bool{verifNondetBool("pre_a"), verifNondetBool("pre_b")}
 	late := [2]bool{verifNondetBool("late_a"), verifNondetBool("late_b")}
 	explicit := verifNondetBool("explicit_cancel")
+	never := verifNondetBool("with_never_cancelable_input")
 	var r context.Context
 	var cancel context.CancelFunc
 	verifAtomic(func() {
@@ -62,9 +63,14 @@ func Harness_C16_conflated() {
 		if pre[1] {
 			bc()
 		}
-		r, cancel = ConflatedContext(a, b)
+		if never {
+			// a third input that can never be cancelled (its Done channel is nil): the result stays live
+			r, cancel = ConflatedContext(a, b, context.WithValue(context.Background(), verifCtxKey(3), vtok(43)))
+		} else {
+			r, cancel = ConflatedContext(a, b)
+		}
 		verifAssert(r.Value(verifCtxKey(1)) == vtok(41) && r.Value(verifCtxKey(2)) == nil, "values_only_from_first")
-		if pre[0] && pre[1] {
+		if pre[0] && pre[1] && !never {
 			verifAssert(r.Err() != nil, "all_cancelled_initially_means_cancelled")
 		}
 	})
@@ -78,7 +84,7 @@ func Harness_C16_conflated() {
 		go func() { cancel() }()
 	}
 	verifFinally(func() {
-		all := (pre[0] || late[0]) && (pre[1] || late[1])
+		all := (pre[0] || late[0]) && (pre[1] || late[1]) && !never
 		verifAssert((r.Err() != nil) == (all || explicit), "cancelled_iff_all_inputs_cancelled_or_cancel_called")
 		verifReach("quiescent")
 	})
